@@ -24,9 +24,17 @@ pub enum Mistake {
     BadDatum { pos: u8, kind: u8 },
     /// the id of a live annotation (different content)
     DuplicateId { pick: u16 },
-    /// complex selector nested inside a complex selector
-    Nested,
+    /// complex selector nested inside a complex selector (wraps the sub-selector at position `pos`; serialised
+    /// cases without the field wrap the last one)
+    Nested {
+        #[serde(default = "last_pos")]
+        pos: u8,
+    },
     NoTarget,
+}
+
+fn last_pos() -> u8 {
+    255
 }
 
 #[derive(Clone, Debug, Serialize, Deserialize, PartialEq)]
@@ -51,7 +59,14 @@ pub struct Base {
 
 #[derive(Clone, Debug, Serialize, Deserialize)]
 pub enum Request {
-    Annotate { base: Base, mistake: Mistake, batch_before: Vec<Base> },
+    Annotate {
+        base: Base,
+        mistake: Mistake,
+        batch_before: Vec<Base>,
+        /// valid requests following the failing one in the batch: must NOT be applied ("stops at the first error")
+        #[serde(default)]
+        batch_after: Vec<Base>,
+    },
     Other(Other),
 }
 
@@ -78,7 +93,7 @@ fn mistake_strategy() -> BoxedStrategy<Mistake> {
         4 => (0u8..4, 0u8..4).prop_map(|(leaf, kind)| Mistake::BadOffset { leaf, kind }),
         4 => (0u8..4, 0u8..2).prop_map(|(pos, kind)| Mistake::BadDatum { pos, kind }),
         3 => any::<u16>().prop_map(|pick| Mistake::DuplicateId { pick }),
-        1 => Just(Mistake::Nested),
+        2 => prop_oneof![Just(0u8), Just(1u8), Just(255u8)].prop_map(|pos| Mistake::Nested { pos }),
         1 => Just(Mistake::NoTarget),
     ]
     .boxed()
@@ -229,7 +244,7 @@ fn inject(
             *id = m.model.ann(a).id.clone();
             Some(format!("duplicate-annotation-id|later|{}data", data.len().min(2)))
         }
-        Mistake::Nested => {
+        Mistake::Nested { pos } => {
             let t = target.take()?;
             match t {
                 SelectorBuilder::MultiSelector(v) | SelectorBuilder::CompositeSelector(v) | SelectorBuilder::DirectionalSelector(v) => {
@@ -237,11 +252,12 @@ fn inject(
                         return None;
                     }
                     let mut v = v;
-                    let last = v.pop().unwrap();
-                    let inner = SelectorBuilder::MultiSelector(vec![clone_sel(&last), last]);
-                    v.push(inner);
+                    let i = (*pos as usize).min(v.len() - 1);
+                    let member = v.remove(i);
+                    let inner = SelectorBuilder::MultiSelector(vec![clone_sel(&member), member]);
+                    v.insert(i, inner);
                     *target = Some(SelectorBuilder::CompositeSelector(v));
-                    Some("nested-complex|later".into())
+                    Some(format!("nested-complex|{}", if i == 0 { "first" } else { "later" }))
                 }
                 other => {
                     *target = Some(other);
@@ -345,11 +361,18 @@ impl Property for C14 {
             complex_weight: 2,
             ..HistCfg::default()
         };
-        let ann = (base_strategy(), mistake_strategy(), proptest::collection::vec(base_strategy(), 0..=2), proptest::bool::weighted(0.3))
-            .prop_map(|(base, mistake, before, batch)| Request::Annotate {
+        let ann = (
+            base_strategy(),
+            mistake_strategy(),
+            proptest::collection::vec(base_strategy(), 0..=2),
+            proptest::collection::vec(base_strategy(), 0..=2),
+            proptest::bool::weighted(0.35),
+        )
+            .prop_map(|(base, mistake, before, after, batch)| Request::Annotate {
                 base,
                 mistake,
                 batch_before: if batch { before } else { vec![] },
+                batch_after: if batch { after } else { vec![] },
             });
         let dspec = (proptest::bool::weighted(0.4), 0u8..6, val_strategy(false)).prop_map(|(with_id, key, val)| DSpec { with_id, key, val });
         let other = prop_oneof![
@@ -390,7 +413,7 @@ impl Property for C14 {
         let mut corrected: Option<(AnnotationBuilder<'static>, AnnotationBuilder<'static>)> = None;
         let result: Result<Result<(), String>, PanicInfo>;
         match &case.req {
-            Request::Annotate { base, mistake, batch_before } => {
+            Request::Annotate { base, mistake, batch_before, batch_after } => {
                 // valid batch prefix: applied to the twin directly, to the store through the batch call
                 let mut batch: Vec<AnnotationBuilder<'static>> = vec![];
                 for b in batch_before {
@@ -451,17 +474,29 @@ impl Property for C14 {
                     Mistake::BadOffset { .. } => class.contains("|later|"),
                     Mistake::BadDatum { .. } => true,
                     Mistake::DuplicateId { .. } => true,
-                    Mistake::Nested => true,
+                    Mistake::Nested { .. } => class.contains("|later"),
                     Mistake::NoTarget => false,
                 } || !batch.is_empty();
                 let bad = assemble(&id, &target, &dbs);
                 let n_before = batch.len();
-                if batch.is_empty() {
+                // valid requests placed after the failing one (built against the current model; never applied to the twin)
+                let mut after_builders: Vec<AnnotationBuilder<'static>> = vec![];
+                for b in batch_after {
+                    if let Some((builder, _next, _)) = m.prepare_annotate(b.with_id, 0, b.by_handle, &b.target, &b.data) {
+                        after_builders.push(builder);
+                    }
+                }
+                if batch.is_empty() && after_builders.is_empty() {
                     out.label("direct");
                     result = catch(|| m.store.annotate(bad).map(|_| ()).map_err(|e| format!("{}", e)));
                 } else {
                     out.label("batch");
+                    if !after_builders.is_empty() {
+                        out.label("batch_with_tail");
+                        out.nontrivial = true;
+                    }
                     batch.push(bad);
+                    batch.extend(after_builders);
                     result = catch(|| m.store.annotate_from_iter(batch).map(|_| ()).map_err(|e| format!("{}", e)));
                 }
                 let _ = n_before;
@@ -551,7 +586,7 @@ impl Property for C14 {
                 return out;
             }
         };
-        let reference = if matches!(&case.req, Request::Annotate { batch_before, .. } if !batch_before.is_empty()) {
+        let reference = if matches!(&case.req, Request::Annotate { batch_before, batch_after, .. } if !batch_before.is_empty() || !batch_after.is_empty()) {
             match catch(|| observe(&twin.store)) {
                 Ok(o) => o,
                 Err(_) => {
